@@ -298,6 +298,33 @@ pub fn combo_configs(quick: bool) -> Vec<Config> {
             out.push(Config { name: format!("DynWeighted{w:?}"), run: direct(d), admits, member_ok, alpha: AlphaKind::Ranges, extreme_pass: false });
         }
     }
+    // the dynamic list used between its building steps: a selection (from a throw-away stream) after every
+    // `with_selector`, then the observed one; what a value reports must follow from what it holds *now*
+    for k in 2..=3usize {
+        for wv in all_value_vectors(k, &ws) {
+            let w: Vec<u32> = wv.iter().map(|x| *x as u32).collect();
+            let (admits, member_ok) = combo_oracles(k, w.clone());
+            let w2 = w.clone();
+            out.push(Config {
+                name: format!("DynWeighted-stepwise{w:?}"),
+                run: Box::new(move |pop, env, a| {
+                    let mut tape = mcx::TapeRng::default();
+                    let mut d: DynWeighted<Pop> = DynWeighted::new(Best, w2[0] as usize);
+                    let _ = mcx::guarded(|| d.select(pop, &mut tape).is_ok());
+                    d = d.with_selector(Random, w2[1] as usize);
+                    if w2.len() >= 3 {
+                        let _ = mcx::guarded(|| d.select(pop, &mut tape).is_ok());
+                        d = d.with_selector(t2(), w2[2] as usize);
+                    }
+                    observe_select(&d, pop, pop, env, a)
+                }),
+                admits,
+                member_ok,
+                alpha: AlphaKind::Ranges,
+                extreme_pass: false,
+            });
+        }
+    }
     // weights whose total does not fit in usize (stepwise built): no documented error covers it, so any
     // error or any member is accepted -- but never a panic
     for (name, w) in [("huge1", vec![usize::MAX, 1]), ("huge2", vec![usize::MAX, usize::MAX]), ("huge3", vec![usize::MAX / 2 + 1, usize::MAX / 2 + 1, 1]), ("huge4", vec![1, usize::MAX])] {
@@ -577,7 +604,7 @@ pub fn run(run: &mut Run) {
     ragged_lexicase(run);
     crate::bigpop::run_family(run, crate::bigpop::BigMode::Member);
     run.traces_validated = run.evaluations;
-    run.rule = "every selector configuration (Best, Worst, Random, Tournament(1..n+1), Lexicase(0..3 cases, 2 results available), lone Weighted, WeightedPair nestings of 2..4 real selectors, DynWeighted lists of 1..3; direct, behind &, through Select, and type-erased) x every population of size 0..n over 3 values x every word sequence of the mixed Grid(12)+Rep(12!,24) alphabet, and (n <= 3) of the alphabets that add the extreme words 0 and all-ones; plus Lexicase(0..3), direct and erased, on every ragged population (each individual with its own 0..3 results); plus large populations (big.population_sizes, 10 structured populations) for Best, Worst, Random, Lexicase(2), Lexicase(3) with one individual a result short (all tied: MissingTestCase is certain) and tournaments of sizes {1,2,3,7,11,12,16,17,31..33,64,65,162..164,n/65,n/64,n/3,n/2,n-2,n-1,n,n+1} on all streams of big.streams: a member or the documented tournament-size error; non-trivial = scenarios with more than one distinct outcome".into();
+    run.rule = "every selector configuration (Best, Worst, Random, Tournament(1..n+1), Lexicase(0..3 cases, 2 results available), lone Weighted, WeightedPair nestings of 2..4 real selectors, DynWeighted lists of 1..3 (also with a selection made after every building step); direct, behind &, through Select, and type-erased) x every population of size 0..n over 3 values x every word sequence of the mixed Grid(12)+Rep(12!,24) alphabet, and (n <= 3) of the alphabets that add the extreme words 0 and all-ones; plus Lexicase(0..3), direct and erased, on every ragged population (each individual with its own 0..3 results); plus large populations (big.population_sizes, 10 structured populations) for Best, Worst, Random, Lexicase(2), Lexicase(3) with one individual a result short (all tied: MissingTestCase is certain) and tournaments of sizes {1,2,3,7,11,12,16,17,31..33,64,65,162..164,n/65,n/64,n/3,n/2,n-2,n-1,n,n+1} on all streams of big.streams: a member or the documented tournament-size error; non-trivial = scenarios with more than one distinct outcome".into();
     run.bound("max_population", json!(max_n));
     run.bound("configurations", json!(configs.len()));
     run.bound("populations", json!(pops.len()));
